@@ -565,6 +565,183 @@ theorem inv_loaded (k : Kind) (specs : List LoadAtom) (bonds : List (Nat × Nat)
     | cons p l ih => exact fun m h => ih _ (inv_connect h _ _)
   exact h2 _ _ (h1 _ _ (inv_empty k))
 
+/-! ### views: rows are located through the atom objects at access time -/
+
+/-- two lists related element by element -/
+inductive Rel2 {α β : Type} (R : α → β → Prop) : List α → List β → Prop
+  | nil : Rel2 R [] []
+  | cons {a b as bs} : R a b → Rel2 R as bs → Rel2 R (a :: as) (b :: bs)
+
+theorem Rel2.imp {α β : Type} {R S : α → β → Prop} (hrs : ∀ a b, R a b → S a b) {as : List α} {bs : List β}
+    (h : Rel2 R as bs) : Rel2 S as bs := by
+  induction h with
+  | nil => exact .nil
+  | cons h1 _ ih => exact .cons (hrs _ _ h1) ih
+
+theorem set_idxOf_self {ids : List AtomId} {a : AtomId} (ha : a ∈ ids) : ids.set (ids.idxOf a) a = ids := by
+  have hlt : ids.idxOf a < ids.length := List.idxOf_lt_length_of_mem ha
+  have hg : ids[ids.idxOf a] = a := List.getElem_idxOf hlt
+  calc ids.set (ids.idxOf a) a = ids.set (ids.idxOf a) ids[ids.idxOf a] := by rw [hg]
+    _ = ids := List.set_getElem_self hlt
+
+/-- the indices a view computes are the positions of its atom objects -/
+theorem viewIndices_spec {m : Mol} : ∀ {as : List AtomId} {is : List Nat}, viewIndices m as = some is →
+    Rel2 (fun a i => a ∈ m.ids ∧ i = m.ids.idxOf a) as is := by
+  intro as
+  induction as with
+  | nil => intro is h; simp only [viewIndices, Option.some.injEq] at h; subst h; exact .nil
+  | cons a as ih =>
+    intro is h
+    simp only [viewIndices] at h
+    cases hi : resolveIndex m.atoms (.obj a) with
+    | none => simp [hi] at h
+    | some i =>
+      cases hr : viewIndices m as with
+      | none => simp [hi, hr] at h
+      | some is' =>
+        simp only [hi, hr, Option.some.injEq] at h
+        subst h
+        refine .cons ?_ (ih hr)
+        simp only [resolveIndex] at hi
+        split at hi
+        · rename_i hm
+          cases hi
+          exact ⟨hm, rfl⟩
+        · cases hi
+
+theorem viewIndices_defined {m : Mol} : ∀ (as : List AtomId), (∀ a ∈ as, a ∈ m.ids) → (viewIndices m as).isSome = true := by
+  intro as
+  induction as with
+  | nil => intro _; rfl
+  | cons a as ih =>
+    intro h
+    have ha : a ∈ m.atoms.map (·.id) := h a (List.mem_cons_self)
+    have hr := ih (fun x hx => h x (List.mem_cons_of_mem _ hx))
+    cases hv : viewIndices m as with
+    | none => simp [hv] at hr
+    | some is => simp [viewIndices, resolveIndex, ha, hv]
+
+theorem tags_writeRows {ids : List AtomId} : ∀ (is : List Nat) (as : List AtomId) (ps : List Nat)
+    (rows : List (AtomId × Nat)), rows.map (·.1) = ids →
+    Rel2 (fun a i => a ∈ ids ∧ i = ids.idxOf a) as is → (writeRows rows is as ps).map (·.1) = ids := by
+  intro is
+  induction is with
+  | nil => intro as ps rows h _; cases as <;> cases ps <;> exact h
+  | cons i is ih =>
+    intro as ps rows h hf
+    cases as with
+    | nil => exact h
+    | cons a as =>
+      cases ps with
+      | nil => exact h
+      | cons p ps =>
+        cases hf with
+        | cons hh ht =>
+          simp only [writeRows]
+          apply ih as ps _ _ ht
+          rw [List.map_set, h, hh.2]
+          exact set_idxOf_self hh.1
+
+theorem writeRows_frame : ∀ (is : List Nat) (as : List AtomId) (ps : List Nat) (rows : List (AtomId × Nat)) (j : Nat),
+    j ∉ is → (writeRows rows is as ps)[j]? = rows[j]? := by
+  intro is
+  induction is with
+  | nil => intro as ps rows j _; cases as <;> cases ps <;> rfl
+  | cons i is ih =>
+    intro as ps rows j hj
+    cases as with
+    | nil => rfl
+    | cons a as =>
+      cases ps with
+      | nil => rfl
+      | cons p ps =>
+        simp only [writeRows]
+        rw [ih as ps _ j (fun h => hj (List.mem_cons_of_mem _ h))]
+        exact List.getElem?_set_ne (fun e => hj (by subst e; exact List.mem_cons_self))
+
+/-- an entry is in a tagged list iff it sits at the position of its atom -/
+theorem mem_tagged_iff {β} {l : List (AtomId × β)} {ids : List AtomId} (ht : l.map (·.1) = ids) (hn : ids.Nodup)
+    {a : AtomId} {p : β} : (a, p) ∈ l ↔ l[ids.idxOf a]? = some (a, p) := by
+  constructor
+  · intro hm
+    obtain ⟨j, hj⟩ := List.mem_iff_getElem?.mp hm
+    have hida : ids[j]? = some a := by rw [← ht, List.getElem?_map, hj]; rfl
+    have hlt : j < ids.length := by
+      rcases Nat.lt_or_ge j ids.length with h | h
+      · exact h
+      · rw [List.getElem?_eq_none h] at hida; cases hida
+    rw [List.getElem?_eq_getElem hlt] at hida
+    have := List.Nodup.idxOf_getElem hn j hlt
+    rw [Option.some.inj hida] at this
+    rw [this]; exact hj
+  · exact fun h => List.mem_of_getElem? h
+
+theorem idxOf_inj {ids : List AtomId} {a b : AtomId} (ha : a ∈ ids) (hb : b ∈ ids) (h : ids.idxOf a = ids.idxOf b) : a = b := by
+  have h1 : ids[ids.idxOf a]'(List.idxOf_lt_length_of_mem ha) = a := List.getElem_idxOf _
+  have h2 : ids[ids.idxOf b]'(List.idxOf_lt_length_of_mem hb) = b := List.getElem_idxOf _
+  rw [← h1, ← h2]
+  congr 1
+
+/-- a write through a view lands on the rows of the view's own atoms -/
+theorem writeRows_lands {ids : List AtomId} : ∀ (is : List Nat) (as : List AtomId) (ps : List Nat)
+    (rows : List (AtomId × Nat)), rows.length = ids.length → as.Nodup → ps.length = as.length →
+    Rel2 (fun a i => a ∈ ids ∧ i = ids.idxOf a) as is →
+    Rel2 (fun a p => (writeRows rows is as ps)[ids.idxOf a]? = some (a, p)) as ps := by
+  intro is
+  induction is with
+  | nil =>
+    intro as ps rows _ _ hl hf
+    cases hf
+    cases ps with
+    | nil => exact .nil
+    | cons _ _ => simp at hl
+  | cons i is ih =>
+    intro as ps rows hlen hn hl hf
+    cases as with
+    | nil => cases hf
+    | cons a as =>
+      cases ps with
+      | nil => simp at hl
+      | cons p ps =>
+        cases hf with
+        | cons hh ht =>
+          simp only [List.nodup_cons] at hn
+          simp only [writeRows]
+          refine .cons ?_ (ih as ps _ (by simpa using hlen) hn.2 (by simpa using hl) ht)
+          -- no later write goes to the row of `a`
+          have hni : ids.idxOf a ∉ is := by
+            intro hmem
+            -- some later atom has the same index, hence is `a`
+            have : ∀ (as' : List AtomId) (is' : List Nat),
+                Rel2 (fun a i => a ∈ ids ∧ i = ids.idxOf a) as' is' → ids.idxOf a ∈ is' → a ∈ as' := by
+              intro as' is' hf'
+              induction hf' with
+              | nil => intro h; cases h
+              | cons h1 _ ih' =>
+                intro h
+                rcases List.mem_cons.mp h with h | h
+                · rw [h1.2] at h
+                  exact (idxOf_inj hh.1 h1.1 h) ▸ List.mem_cons_self
+                · exact List.mem_cons_of_mem _ (ih' h)
+            exact hn.1 (this as is ht hmem)
+          rw [writeRows_frame is as ps _ _ hni, hh.2]
+          have hlt : ids.idxOf a < rows.length := hlen ▸ List.idxOf_lt_length_of_mem hh.1
+          simp [List.getElem?_set_self hlt]
+
+theorem inv_viewWrite {m : Mol} (h : MInv m) (as : List AtomId) (ps : List Nat) :
+    MInv (step m (.viewWrite as ps)).1 := by
+  simp only [step]
+  cases hv : viewIndices m as with
+  | none => exact h
+  | some is =>
+    dsimp only
+    split
+    · exact { rowTags := tags_writeRows (ids := m.ids) is as ps m.rows h.rowTags (viewIndices_spec (m := m) hv),
+              chargeTags := h.chargeTags, numeric := h.numeric, nodup := h.nodup, bondEnds := h.bondEnds,
+              bondNodup := h.bondNodup, atomParent := h.atomParent, bondParent := h.bondParent,
+              atomFresh := h.atomFresh, bondFresh := h.bondFresh }
+    · exact h
+
 /-- every operation preserves the invariant -/
 theorem inv_step {m : Mol} (h : MInv m) (op : Op) : MInv (step m op).1 := by
   cases op with
@@ -581,6 +758,9 @@ theorem inv_step {m : Mol} (h : MInv m) (op : Op) : MInv (step m op).1 := by
   | delBond b => exact inv_delBond h b
   | removeSubstituent r1 r2 l => exact inv_removeSubstituent h r1 r2 l
   | addHydrogens hs => exact inv_addHydrogens hs h
+  | mkView refs => exact h
+  | viewRead as => exact h
+  | viewWrite as ps => exact inv_viewWrite h as ps
 
 theorem inv_run (ops : List Op) {m : Mol} (h : MInv m) : MInv (run m ops) := by
   unfold run
@@ -668,11 +848,47 @@ theorem keeps_foldl_delObj (l : List AtomId) {m : Mol} (h : MInv m) (a : AtomId)
     have h1 : a ∈ (delObj m b).ids := ids_foldl_delObj_subset l (delObj m b) ha
     exact Keeps.trans (keeps_delAtom h _ a h1) (ih (inv_delObj h b) ha)
 
+theorem idx_not_mem_of_not_mem {ids : List AtomId} {a : AtomId} (ha : a ∈ ids) : ∀ (as : List AtomId) (is : List Nat),
+    Rel2 (fun a i => a ∈ ids ∧ i = ids.idxOf a) as is → a ∉ as → ids.idxOf a ∉ is := by
+  intro as is hf
+  induction hf with
+  | nil => intro _ h; cases h
+  | cons h1 _ ih =>
+    intro hna h
+    rcases List.mem_cons.mp h with h | h
+    · rw [h1.2] at h
+      exact hna ((idxOf_inj ha h1.1 h) ▸ List.mem_cons_self)
+    · exact ih (fun hm => hna (List.mem_cons_of_mem _ hm)) h
+
+/-- a write through a view leaves the rows of all other atoms alone -/
+theorem keeps_viewWrite {m : Mol} (h : MInv m) (as : List AtomId) (ps : List Nat) (a : AtomId) (ha : a ∈ m.ids)
+    (hna : a ∉ as) : Keeps m (step m (.viewWrite as ps)).1 a := by
+  have h' := inv_viewWrite h as ps
+  simp only [step] at h' ⊢
+  cases hv : viewIndices m as with
+  | none => exact Keeps.refl _ _
+  | some is =>
+    rw [hv] at h'
+    dsimp only at h' ⊢
+    split
+    · rename_i hl
+      rw [if_pos hl] at h'
+      refine ⟨fun p hp => ?_, fun q hq => hq⟩
+      have hidx := idx_not_mem_of_not_mem ha as is (viewIndices_spec (m := m) hv) hna
+      have e1 := (mem_tagged_iff h.rowTags h.nodup (a := a) (p := p)).mp hp
+      exact (mem_tagged_iff (ids := m.ids) h'.rowTags h.nodup).mpr (by
+        show (writeRows m.rows is as ps)[m.ids.idxOf a]? = some (a, p)
+        rw [writeRows_frame is as ps m.rows _ hidx]; exact e1)
+    · exact Keeps.refl _ _
+
 /-- Every edit keeps, for every atom that is still in the molecule afterwards, the coordinate row and
 the partial charge the atom had. -/
 theorem keeps_step {m : Mol} (h : MInv m) (op : Op) (a : AtomId) (ha0 : a ∈ m.ids)
-    (ha : a ∈ (step m op).1.ids) : Keeps m (step m op).1 a := by
+    (ha : a ∈ (step m op).1.ids) (hw : ∀ as ps, op = .viewWrite as ps → a ∉ as) : Keeps m (step m op).1 a := by
   cases op with
+  | mkView refs => exact Keeps.refl _ _
+  | viewRead as => exact Keeps.refl _ _
+  | viewWrite as ps => exact keeps_viewWrite h as ps a ha0 (hw as ps rfl)
   | addAtom s c q =>
     simp only [step]; split
     · exact Keeps.refl _ _
@@ -777,5 +993,51 @@ theorem tagged_unique {β} {l : List (AtomId × β)} (hn : (l.map (·.1)).Nodup)
     · exact absurd (List.mem_map.mpr ⟨(a, q), hq, rfl⟩) (by rw [← hp] at hn; exact hn.1)
     · exact absurd (List.mem_map.mpr ⟨(a, p), hp, rfl⟩) (by rw [← hq] at hn; exact hn.1)
     · exact ih hn.2 hp hq
+
+/-- what a view reads are the rows of its own atoms -/
+theorem rowsAt_spec {ids : List AtomId} {rows : List (AtomId × Nat)} (ht : rows.map (·.1) = ids) :
+    ∀ {as : List AtomId} {is : List Nat} {ps : List Nat}, Rel2 (fun a i => a ∈ ids ∧ i = ids.idxOf a) as is →
+    rowsAt rows is = some ps → Rel2 (fun a p => (a, p) ∈ rows) as ps := by
+  intro as is ps hf
+  induction hf generalizing ps with
+  | nil => intro h; simp only [rowsAt, Option.some.injEq] at h; subst h; exact .nil
+  | @cons a i as is h1 _ ih =>
+    intro h
+    simp only [rowsAt] at h
+    cases hr : rows[i]? with
+    | none => simp [hr] at h
+    | some r =>
+      cases hrest : rowsAt rows is with
+      | none => simp [hr, hrest] at h
+      | some ps' =>
+        simp only [hr, hrest, Option.some.injEq] at h
+        subst h
+        refine .cons ?_ (ih hrest)
+        have hlt : i < ids.length := h1.2 ▸ List.idxOf_lt_length_of_mem h1.1
+        have hida : ids[i]? = some a := by
+          rw [List.getElem?_eq_getElem hlt]
+          have : ids[i] = a := by
+            have := List.getElem_idxOf (h1.2 ▸ hlt : ids.idxOf a < ids.length)
+            simp only [h1.2]; exact this
+          rw [this]
+        have : (rows.map (·.1))[i]? = some r.1 := by rw [List.getElem?_map, hr]; rfl
+        rw [ht, hida] at this
+        have hra : r.1 = a := (Option.some.inj this).symm
+        have hmem := List.mem_of_getElem? hr
+        rw [← hra]
+        exact hmem
+
+theorem rowsAt_defined {rows : List (AtomId × Nat)} : ∀ (is : List Nat), (∀ i ∈ is, i < rows.length) →
+    (rowsAt rows is).isSome = true := by
+  intro is
+  induction is with
+  | nil => intro _; rfl
+  | cons i is ih =>
+    intro h
+    have hi := h i (List.mem_cons_self)
+    have hr := ih (fun x hx => h x (List.mem_cons_of_mem _ hx))
+    cases hv : rowsAt rows is with
+    | none => simp [hv] at hr
+    | some ps => simp [rowsAt, List.getElem?_eq_getElem hi, hv]
 
 end Molli.Lemmas.MolEdit
